@@ -19,7 +19,11 @@ package main
 //                         (engine comparison) and goldmark must too (oracle).
 //
 // Two-phase flow as `cmemph`. Clause `inline-link-differs`; confirmed deviations of goldmark are attributed to their own
-// clauses (see cmlinkAttribute) and listed in KNOWN_FINDINGS.txt.
+// clauses (see cmlinkAttribute) and listed in KNOWN_FINDINGS.txt. Four of them (L1 pointy, L2 unbalanced parenthesis, L3 title
+// without separator, L5 blank label) are REPAIRED in /repo (`fixed:` 5e850d1, ce3b6c4, 8c83fd9, fb85ad2; package
+// linkfix): their clauses are still named by the attribution, but as regressions - VIOLATION and disagreement, the model's line
+// is not substituted; their hand-derived inputs in cmlinkFixed are regression cases. L4 (control character) and combinations
+// stay recorded findings.
 
 import (
 	"bytes"
@@ -259,7 +263,8 @@ func genCMLink(tier string, rng *RNG, emit func(Case)) {
 	}
 }
 
-// cmlinkFixed: hand-derived inputs of confirmed deviations (source, prescribed HTML, clause); see notes/status_C02.md round 4
+// cmlinkFixed: hand-derived inputs of confirmed deviations (source, prescribed HTML, clause); see notes/status_C02.md round 4.
+// L1, L2, L3, L5 are repaired: regression cases (a failure is a VIOLATION); L4 is a recorded finding.
 var cmlinkFixed = [][3]string{
 	// L1 (6.3, first form of a destination: "no line endings or unescaped < or > characters"; cf. examples 491, 493)
 	{"[a](<b<c>)", "<p>[a](&lt;b<c>)</p>\n", "link-destination-pointy-differs"},
@@ -480,7 +485,7 @@ func cmlinkAttribute(c Case, src, got, want []byte) (string, bool) {
 			q, alt = "cmspec linkr "+hx(altBody), append(append([]byte{}, altBody...), []byte(cmlinkRefSuffix)...)
 		}
 		if a, ok := cmlinkAnswer(q); ok && a == hx(want) && bytes.Equal(cmspecConvert(alt), want) {
-			return "escape-after-backslash-spaces-break-differs", true
+			return "escape-after-backslash-spaces-break-differs", false // repaired (24c9f23): a regression, not a known deviation
 		}
 	}
 	a, err := cmspecAskOne("cmspec linkattr " + refA + " " + hx(body) + " " + hx(got))
@@ -491,13 +496,13 @@ func cmlinkAttribute(c Case, src, got, want []byte) (string, bool) {
 	case "1":
 		return "link-destination-control-char-differs", true
 	case "2":
-		return "link-destination-unbalanced-paren-differs", true
+		return "link-destination-unbalanced-paren-differs", false // repaired (ce3b6c4): a regression
 	case "4":
-		return "link-destination-pointy-differs", true
+		return "link-destination-pointy-differs", false // repaired (5e850d1): a regression
 	case "8":
-		return "link-title-without-separator-differs", true
+		return "link-title-without-separator-differs", false // repaired (8c83fd9): a regression
 	case "16":
-		return "link-label-blank-differs", true
+		return "link-label-blank-differs", false // repaired (fb85ad2): a regression
 	case "none", "bad-op":
 		return "inline-link-differs", false
 	}
